@@ -661,6 +661,17 @@ func (e *specEnv) callSpec(n *ECall) Val {
 		return VInt{errID(ex.extGlobal(e.cur(), "io", "EOF"))}
 	case "ioUnexpectedEOF":
 		return VInt{errID(ex.extGlobal(e.cur(), "io", "ErrUnexpectedEOF"))}
+	case "trimSpace":
+		b := argv(0).(VSlice)
+		return ex.trimSpaceOf(e.cur(), e.memOf(b)[0], b, false)
+	case "formatMedia":
+		// formatMedia(t, ps): what mime.FormatMediaType returns for type t and parameters ps
+		t := argv(0).(VSlice)
+		id := T("0")
+		if m, ok := argv(1).(VMap); ok {
+			id = m.ID
+		}
+		return ex.fmtMediaOf(e.cur(), e.memOf(t)[0], t, id)
 	case "pmt":
 		// pmt(s): the media type that mime.ParseMediaType extracts from s (assumed library function)
 		s := argv(0).(VSlice)
